@@ -11,7 +11,9 @@
 package main
 
 import (
+	"bytes"
 	"context"
+	"encoding/binary"
 	"errors"
 	"fmt"
 	"net"
@@ -380,7 +382,7 @@ type cutEnv struct {
 	rt      *full.Runtime
 	plugins []*full.Plugin
 	fc      *full.FaultConn
-	fc2     *full.FaultConn // the second victim's connection
+	fc2     *full.FaultConn   // the second victim's connection
 	rtfc    []*full.FaultConn // runtime-side ends, in accept order
 	leak    bool
 }
@@ -590,6 +592,26 @@ func runCutCase(c cutCase) (viol []string, sig string) {
 		e.fc.Arm(-1, c.Offset)
 	case "stop-before":
 		e.plugins[c.Victim].Stub.Stop()
+	case "flood":
+		// the victim breaks the protocol: it stops reading its socket and floods the runtime's service
+		// connection (mux id 2) with bare ttrpc request headers; the runtime answers each with an error
+		// status until its replies fill the socket, then the read queue of that connection overflows
+		e.fc.Blackhole = true
+		e.fc.Arm(0, -1)
+		frame := make([]byte, 8+10)
+		binary.BigEndian.PutUint32(frame[0:4], 2)   // connection id: runtime service
+		binary.BigEndian.PutUint32(frame[4:8], 10)  // payload: one ttrpc message header
+		binary.BigEndian.PutUint32(frame[8:12], 0)  // ttrpc: no payload
+		binary.BigEndian.PutUint32(frame[12:16], 2) // ttrpc: even (invalid for a client) stream id
+		frame[16] = 1                               // ttrpc: request
+		burst := bytes.Repeat(frame, 64)
+		for k := 0; k < 4000; k++ {
+			e.fc.Conn.SetWriteDeadline(time.Now().Add(2 * time.Second))
+			if _, err := e.fc.Conn.Write(burst); err != nil {
+				break
+			}
+		}
+		e.fc.Conn.SetWriteDeadline(time.Time{})
 	case "rt-cut-write":
 		// the runtime's own write of the request fails after k bytes (partial write)
 		e.rtfc[c.Victim].Arm(-1, c.Offset)
@@ -764,7 +786,7 @@ func engineCuts(f *rep.Flags, res *rep.Result) {
 				for k := int64(0); k < rs; k++ {
 					cases = append(cases, cutCase{Call: cn, N: n, Victim: v, Fault: "rt-cut-read", Offset: k})
 				}
-				for _, ft := range []string{"stop-before", "stop-inside", "stop-after", "hang", "handler-error"} {
+				for _, ft := range []string{"stop-before", "stop-inside", "stop-after", "hang", "handler-error", "flood"} {
 					cases = append(cases, cutCase{Call: cn, N: n, Victim: v, Fault: ft})
 				}
 				for _, k := range []int64{0, rq / 2, rq - 1} {
